@@ -496,6 +496,54 @@ def check_links(ctx, F):
             elif isinstance(n, ast.Call) and isinstance(n.func, ast.Attribute) and isinstance(n.func.value, ast.Name) and n.func.value.id in al:
                 if n.func.attr in SHIFT_OPS or (n.func.attr == 'pop' and n.args):
                     ops.append((n, n.func.value.id))
+        # attribute-form lists: `del X.<field>[i]`, `del getattr(X, v)[i]` with v constrained by an enclosing `v in (<consts>)` / `v == <const>`
+        # test or bound by `for v in (<consts>)`; they are discharged by a table-driven re-index loop
+        #   for F in (<consts>): for i, a in enumerate(getattr(X, F)): a.f.pfield = astfield(F, i)
+        par2 = None
+        field_ops = []          # (node, X text, {fields})
+        for n in walk_no_nested(fi.node):
+            tgts = n.targets if isinstance(n, ast.Delete) else []
+            for t in tgts:
+                if not (isinstance(t, ast.Subscript) and not _is_tail_slice(t.slice) and not _is_last_index(t.slice)):
+                    continue
+                v = t.value
+                if isinstance(v, ast.Attribute) and v.attr in node_lists and isinstance(v.value, ast.Name):
+                    field_ops.append((n, v.value.id, {v.attr}))
+                elif isinstance(v, ast.Call) and call_name(v) == 'getattr' and len(v.args) == 2 and isinstance(v.args[0], ast.Name) and \
+                        isinstance(v.args[1], ast.Name):
+                    par2 = par2 or parent_map(fi.node)
+                    fs = _const_domain(fi.node, par2, n, v.args[1].id)
+                    if fs:
+                        field_ops.append((n, v.args[0].id, fs & node_lists))
+        if field_ops and _derives_from_param(fi, {x for _, x, _ in field_ops}):
+            cfg_f = CFG(fi.node)
+            cover = {}          # cfg node id of an outer `for F in (<consts>)` -> (X, fields)
+            for nd in cfg_f.nodes:
+                if nd.kind != 'iter':
+                    continue
+                lp = nd.ast
+                if isinstance(lp.target, ast.Name) and isinstance(lp.iter, (ast.Tuple, ast.List)) and all(isinstance(e, ast.Constant) for e in lp.iter.elts):
+                    fv = lp.target.id
+                    for inner in ast.walk(lp):
+                        if isinstance(inner, ast.Assign) and any(isinstance(t, ast.Attribute) and t.attr == 'pfield' for t in inner.targets) and \
+                                isinstance(inner.value, ast.Call) and call_name(inner.value) == 'astfield' and inner.value.args and \
+                                norm(inner.value.args[0]) == fv:
+                            xs = [norm(c.args[0]) for c in ast.walk(lp) if isinstance(c, ast.Call) and call_name(c) == 'getattr' and len(c.args) == 2
+                                  and norm(c.args[1]) == fv]
+                            if xs:
+                                cover[nd.id] = (xs[0], {e.value for e in lp.iter.elts})
+            for opn, xname, fields in field_ops:
+                for f_ in sorted(fields):
+                    good = {nid for nid, (x_, fs_) in cover.items() if x_ == xname and f_ in fs_}
+                    for nd in cfg_f.nodes:
+                        if nd.kind == 'iter' and any(isinstance(y, ast.Assign) and any(isinstance(t, ast.Attribute) and t.attr == 'pfield' for t in y.targets)
+                                                       and f"'{f_}'" in norm(y.value) for y in ast.walk(nd.ast)) and f'{xname}.{f_}' in norm(nd.ast.iter, 200):
+                            good.add(nd.id)
+                    opnodes = [nd for nd in cfg_f.nodes if any(x is opn for x in subnodes(cfg_f, nd))]
+                    okk = all(cfg_f.exit not in cfg_f.reachable(nd.id, lambda n_, lab, s_: lab != 'exc', stop=good) for nd in opnodes)
+                    ctx.check('R2.2b', okk, fi.module, fi.qualname, f'{norm(opn, 60)} [{f_}]',
+                              f'an element is removed from `{xname}.{f_}` but some path to the function exit has no re-index of that list: the '
+                              f'elements after it keep their old `.pfield.idx`', opn.lineno, sample={'function': fi.key, 'op': norm(opn, 60), 'field': f_})
         if not ops:
             continue
         if not _derives_from_param(fi, {l for _, l in ops}):
@@ -528,6 +576,27 @@ def check_links(ctx, F):
                       f'elements of `{lname}` after the edit point shift, but some path to the function exit has no re-index loop over '
                       f'`{lname}`: their `.pfield.idx` (and everything navigating by it) stays at the old position', opn.lineno,
                       sample={'function': fi.key, 'op': norm(opn, 60), 'reviewed': rv})
+
+
+def _const_domain(fn, par, node, var) -> set:
+    """String constants `var` can hold at `node`: from an enclosing `if var in (<consts>)` / `var == <const>` test or `for var in (<consts>)`."""
+    cur = node
+    while cur in par:
+        prev, cur = cur, par[cur]
+        if isinstance(cur, ast.If) and prev in cur.body:
+            t = cur.test
+            if isinstance(t, ast.Compare) and len(t.ops) == 1 and norm(t.left) == var:
+                c = t.comparators[0]
+                if isinstance(t.ops[0], ast.In) and isinstance(c, (ast.Tuple, ast.List, ast.Set)) and all(isinstance(e, ast.Constant) for e in c.elts):
+                    return {e.value for e in c.elts}
+                if isinstance(t.ops[0], ast.Eq) and isinstance(c, ast.Constant):
+                    return {c.value}
+        if isinstance(cur, ast.For) and isinstance(cur.target, ast.Name) and cur.target.id == var and \
+                isinstance(cur.iter, (ast.Tuple, ast.List)) and all(isinstance(e, ast.Constant) for e in cur.iter.elts):
+            return {e.value for e in cur.iter.elts}
+        if cur is fn:
+            break
+    return set()
 
 
 def _loop_binding(fn, par, where, name):
